@@ -7,9 +7,9 @@ FORMATS = {"MotoS_min1": 1, "MotoS_min2": 1, "MotoS_min3": 1, "Intel": 2, "Intel
 GROUPS = []
 for name, num in FORMATS.items():
     GROUPS.append(G("hex_lines_" + name, SRC, "h_ProcessFile_lines", enforce=[], dfcc=False, drop_unused=True, defs=["-DVERIF_FORMAT=%d" % num] + (["-DVERIF_MINMOTO=" + name[-1], "-DVERIF_MAXLEN=4"] if num == 1 else []), tier="quick" if name != "MotoS_min2" else "thorough",
-                    link=["toolutils.c", "as_endian.c", "bpemu.c"], unwind=9, unwindset=["@ProcessFile:ProcessFile:0:7", "@ProcessFile:ProcessFile:last:3", "h_ProcessFile_lines.0:22", "h_ProcessFile_lines.2:12", "line_done.0:17", "line_done.1:17", "line_done.2:5", "line_done.3:17", "line_done.4:17"], timeout=600, cflags=ERRNO, functions=["ProcessFile"], object_bits=12,
+                    link=["toolutils.c", "as_endian.c", "bpemu.c"], unwind=9, unwindset=["@ProcessFile:ProcessFile:0:7", "@ProcessFile:ProcessFile:last:3", "h_ProcessFile_lines.0:22", "h_ProcessFile_lines.2:12"] + ["@line_done:line_done:%d:17" % k for k in range(6)], timeout=600, cflags=ERRNO, functions=["ProcessFile"], object_bits=12,
                     flags=["--slice-formula"], split=8,
-                    bounded="one byte-granular data record of 1..6 bytes at any address the format can express, line length 1..8, no relocation / window clipping / multi-byte mode"))
+                    bounded="one byte-granular data record of 1..6 bytes at any address the format can express, line length 1..8, with and without -a, -R (0..$10000), S5 and separate S9 records; no window clipping / multi-byte mode"))
 GROUPS.append(G("hex_lines_Tek_finding", SRC, "h_ProcessFile_lines", enforce=[], dfcc=False, drop_unused=True, defs=["-DVERIF_FORMAT=6"],
                 link=["toolutils.c", "as_endian.c", "bpemu.c"], unwind=9, unwindset=GROUPS[0].unwindset, timeout=600, cflags=ERRNO, functions=["ProcessFile"], object_bits=12,
                 flags=["--slice-formula"], split=8, only_finding="C06_TEK_CHECKSUM", bounded="witness of the recorded finding C06_TEK_CHECKSUM"))
